@@ -12,7 +12,7 @@ pub const INDS: &[&str] = &[
     "SimpleMovingAverage", "WeightedMovingAverage", "StandardDeviation", "BollingerBands", "MeanAbsoluteDeviation",
     "CommodityChannelIndex", "MoneyFlowIndex", "Minimum", "Maximum",
 ];
-pub const REGIMES: &[&str] = &["walk", "alt", "spike", "plateau", "saw"];
+pub const REGIMES: &[&str] = &["walk", "alt", "spike", "plateau", "saw", "ticks", "quiet"];
 
 /// one value of the band [m, 1000·m] under a regime
 fn nextval(rng: &mut Rng, regime: &str, i: usize, m: f64, prev: f64) -> f64 {
@@ -22,6 +22,21 @@ fn nextval(rng: &mut Rng, regime: &str, i: usize, m: f64, prev: f64) -> f64 {
         "alt" => if i % 2 == 0 { lo * (1.0 + rng.unit() * 1e-3) } else { hi * (1.0 - rng.unit() * 1e-3) },
         "spike" => if rng.chance(0.01) { hi } else { lo * (1.0 + rng.unit()) },
         "plateau" => if i % 257 == 0 { lo + (hi - lo) * rng.unit() } else { prev },
+        // tick-quoted random walk on 16 price levels: ties everywhere (double tops / bottoms, equal neighbours)
+        "ticks" => {
+            let k = ((prev / lo).round() as i64 - 1).clamp(0, 15);
+            let k2 = (k + [-1i64, 0, 0, 1, 1, -1, 2, -2][rng.below(8)]).clamp(0, 15);
+            lo * (1.0 + k2 as f64)
+        }
+        // violent / quiet alternation: 500 inputs jumping between the ends of the band, then 500 inputs of tiny
+        // (relative 1e-8) jitter around one level — quiet but NOT flat, so a variance clamp may fire on a live window
+        "quiet" => {
+            if (i / 500) % 2 == 0 {
+                if i % 2 == 0 { lo * (1.0 + rng.unit() * 1e-3) } else { hi * (1.0 - rng.unit() * 1e-3) }
+            } else {
+                lo * 730.0 * (1.0 + (rng.unit() - 0.5) * 2e-8)
+            }
+        }
         _ => lo + (hi - lo) * ((i % 97) as f64 / 97.0),
     };
     v.max(lo).min(hi)
@@ -74,7 +89,9 @@ pub fn check(case: &Case, _rec: &mut Rec) -> Option<Failure> {
         if case.ind == "StandardDeviation" && !(out[0] >= 0.0) {
             return fail(case, "variance-negative-or-nan", format!("t={}: StandardDeviation = {}", t, out[0]));
         }
-        if t % sample_every != 0 && t != len {
+        // Minimum / Maximum are compared at EVERY step (a stale extreme only survives for < n steps)
+        let every = matches!(case.ind.as_str(), "Minimum" | "Maximum");
+        if !every && t % sample_every != 0 && t != len {
             continue;
         }
         let w: Vec<f64> = ring.iter().copied().collect();
@@ -180,4 +197,4 @@ pub fn generate(r: &mut Runner) {
     }
 }
 
-pub const RULE: &str = "9 indicators × 5 regimes (random walk, alternating extremes of the band [m, 1000m], spikes, plateaus, saw-tooth) × periods from {1, 2..10, 11..100, 101..1000, 1000} × m from {1e-3,1e-2,1,50,1e3,1e6}; one stream of 10^5 (quick) / 2·10^6 (thorough, 3 repetitions) consecutive inputs without reset each, regenerated from the seed stored in the case; outputs compared with a from-scratch double-double evaluation of the harness's own copy of the window at 400 evenly spaced steps and at the end (tau(t)·M; variances for SD and BB; exact for Minimum/Maximum; CCI when c <= 1e6; MFI when c <= 1000); SD >= 0 and not NaN at EVERY step. Every case non-trivial (thousands of wrap-arounds).";
+pub const RULE: &str = "9 indicators × 7 regimes (random walk, alternating extremes of the band [m, 1000m], spikes, plateaus, saw-tooth, tick-quoted walk on 16 levels with ties everywhere, violent/quiet alternation with 1e-8 jitter) × periods from {1, 2..10, 11..100, 101..1000, 1000} × m from {1e-3,1e-2,1,50,1e3,1e6}; one stream of 10^5 (quick) / 2·10^6 (thorough, 3 repetitions) consecutive inputs without reset each, regenerated from the seed stored in the case; outputs compared with a from-scratch double-double evaluation of the harness's own copy of the window at 400 evenly spaced steps and at the end (tau(t)·M; variances for SD and BB; exact for Minimum/Maximum, which are compared at EVERY step; CCI when c <= 1e6; MFI when c <= 1000); SD >= 0 and not NaN at EVERY step. Every case non-trivial (thousands of wrap-arounds).";
